@@ -169,6 +169,7 @@ func Main() {
 			"min_distinct":        minD,
 			"race_detector":       opts.Race,
 			"known_findings_hit":  knownHit,
+			"cross_process_digest_pairs_compared": agg.DigestPairs,
 		}
 		if e, ok := p.(Exhaustive); ok && e.Exhaustive(opts.Tier) {
 			cov["exhaustive"] = true
